@@ -39,6 +39,18 @@ pub fn eval(ctx: &Ctx, op: &str, a: &[&str]) -> Option<String> {
     let input = npy::write_f8(&shape, &data);
     match op {
         "c13.view" => Some(render(&cli::run_sfs(&ctx.sfs_bin, &args_of(&o), &input))),
+        // the same as text at precision a[8]: `sfs view [options] --precision p`
+        "c13.viewtext" => {
+            let mut args = args_of(&o);
+            args.retain(|x| x != "-O" && x != "npy");
+            args.push("--precision".into()); args.push(a[8].to_string());
+            let out = cli::run_sfs(&ctx.sfs_bin, &args, &input);
+            Some(match cli::class(&out) {
+                "OK" => format!("OK {}", String::from_utf8_lossy(&out.stdout).replace('\n', "\\n")),
+                "ERR" => format!("ERR {}", cli::err_tag(&out.stderr)),
+                _ => format!("PANIC({})", out.stderr.lines().next().unwrap_or("").replace('\t', " ")),
+            })
+        }
         "c13.chain" => {
             // marginalize > project > mask > normalize as separate invocations, npy in between
             let stages = [
@@ -105,6 +117,7 @@ pub fn gen(ctx: &Ctx, rng: &mut Rng, out: &mut Vec<String>) {
             let line = format!("{}\t{}\t{}", nats(&shape), bits(&data), enc(&o));
             out.push(format!("c13.view\t{line}"));
             if subset.count_ones() >= 2 || ctx.tier_thorough { out.push(format!("c13.chain\t{line}")); }
+            if (si + subset as usize) % 4 == 0 { out.push(format!("c13.viewtext\t{line}\t{}", *rng.pick(&[0usize, 1, 3, 6, 12, 15]))); }
         }
     }
 }
